@@ -1,7 +1,16 @@
 (* one history per line: events separated by ';' (syntax: harness/props/c14.py).
    output: the observation after every step, separated by " | "; "ERR" (and stop) when the model raises. *)
 let ni = n_of_int
-let parse_event (ws : string list) : event =
+(* an event token group is a list of model events: "D" (one ObjectUpdate with two blocks for the same object)
+   is the sequence of its two blocks *)
+let rec parse_events (ws : string list) : event list =
+  match ws with
+  | "D" :: args ->
+    let a = Array.of_list (List.map int_of_string args) in
+    [EFull (false, ni a.(0), ni a.(1), ni a.(2), ni a.(3), a.(4) <> 0, ni a.(5));
+     EFull (false, ni a.(0), ni a.(1), ni a.(2), ni a.(3), a.(4) <> 0, ni a.(6))]
+  | _ -> [parse_event ws]
+and parse_event (ws : string list) : event =
   match ws with
   | k :: args ->
     let a = Array.of_list (List.map int_of_string args) in
@@ -62,7 +71,7 @@ let () =
       let rec go w = function
         | [] -> ()
         | e :: t ->
-          (match step w (parse_event (words e)) with
+          (match List.fold_left (fun acc ev -> match acc with Some w0 -> step w0 ev | None -> None) (Some w) (parse_events (words e)) with
            | Some w1 ->
              if Buffer.length buf > 0 then Buffer.add_string buf " | ";
              Buffer.add_string buf (observe w1); go w1 t
